@@ -196,6 +196,13 @@ def scan_rename_stream(ctx: Ctx, n: int):
         imports = {}
         for f in leaves:
             imports[f] = [rng.choice(leaves) for _ in range(rng.randint(0, 3))]
+        # now and then some of the leaves are directories WITHOUT any python file below them (docs, assets, an empty package): still
+        # directories, still modules - whatever their siblings are called
+        empties = [f for f in leaves if rng.random() < 0.3] if rng.random() < 0.4 else []
+        if len(empties) == len(leaves):
+            empties = empties[1:]
+        if empties:
+            ctx.stat("scan_rename_cases_with_python_less_directories")
         top = [x for x in inner if len(x) == 1]
         mp_abs = rng.choice(top) if top and rng.random() < 0.7 else ()
         kw = rng.choice([{}, {"exclude_external_libraries": False}, {"exclude_external_libraries": False}])
@@ -213,14 +220,14 @@ def scan_rename_stream(ctx: Ctx, n: int):
             # (the same choice under every naming: the renaming must stay injective on root + components)
             root = names[root_id] if it % 2 else ("p" if names[0].startswith("p") and names[1].startswith("p") else "proj")
             nm = lambda x: tuple([root] + [names[i] for i in x])
-            dirs = [(root,)] + [nm(x) for x in inner]
+            dirs = [(root,)] + [nm(x) for x in inner] + [nm(x) for x in empties]
 
             def spell(f, j, t):
                 full = nm(t)
                 if mp_abs and f[:len(mp_abs)] == mp_abs and short_form[(f, j)]:
                     return ".".join(full[1:])          # relative to module_path's parent (= the root directory, module_path being one level below)
                 return ".".join(full)
-            files = {nm(f): {"py": True, "body": [("import", [spell(f, j, t)]) for j, t in enumerate(imports[f]) if t != f]} for f in leaves}
+            files = {nm(f): {"py": True, "body": [("import", [spell(f, j, t)]) for j, t in enumerate(imports[f]) if t != f]} for f in leaves if f not in empties}
             base = scan.materialise(dirs, files)
             try:
                 r = scan.real_scan(base, root, nm(mp_abs), **kw)
